@@ -319,8 +319,8 @@ pub static C23: CheckDef = CheckDef {
     id: "C23",
     variants: &["encodings", "stream-faults", "batch-order", "malformed"],
     run: run_c23,
-    quick_runs: 20_000,
-    thorough_runs: 1_000_000,
+    quick_runs: 300_000,
+    thorough_runs: 20_000_000,
     rule: "encodings: a generated request (query text, operation name, variables and extensions with arbitrary characters) is encoded as a JSON body, as element i of a JSON batch, as a GET query string and as the operations part of a multipart body, each body delivered through a simulated reader (chunk sizes 1..4096, Pending gaps); all four must decode to the same query, operation name, variables and extensions, and decoding must not depend on the chunk schedule. stream-faults: truncation or an I/O error at a drawn byte: the result must equal the one-chunk decode of the bytes actually delivered (an injected I/O error must yield Err). batch-order: a JSON batch of 2-6 requests decodes in order and execute_batch returns response i for request i under drawn resolver completion orders. malformed: structurally broken variants of each encoding must be rejected with an error. Non-trivial = a body was delivered in >= 2 chunks or a fault fired or >= 2 batch resolvers were in flight; distinct = distinct event-order hashes.",
     real: &["async_graphql::http::{receive_body, receive_batch_body, receive_json, receive_batch_json, parse_query_string}", "ReaderStream + multer (multipart)", "serde_json / serde_urlencoded decoding", "Schema::execute_batch"],
     stub: &["request body (simulated AsyncRead: chunking, Pending, truncation, I/O errors)", "resolvers of the batch schema (gated)", "async runtime"],
@@ -686,8 +686,8 @@ pub static C24: CheckDef = CheckDef {
     id: "C24",
     variants: &["fault-free", "reader-faults"],
     run: run_c24,
-    quick_runs: 15_000,
-    thorough_runs: 600_000,
+    quick_runs: 300_000,
+    thorough_runs: 20_000_000,
     rule: "case = generated multipart request: single or batch (1-3) operations, 0-4 file parts (sizes around max_file_size), a map that binds files to variable paths (several paths per file, list and object paths, per-request batch paths), part order permuted, missing and extra files, generated MultipartOptions (max_file_size, max_num_files or none); the body is delivered through the simulated reader (chunking, Pending gaps; 'reader-faults' adds truncation and I/O errors). Oracle: reference model of the multipart request spec computes either the rejection or the binding (request, variable path) -> file; bindings are observed by executing every decoded request against a schema whose Upload arguments echo file name, content type, length and byte sum. Fault-free: outcome must equal the model; under reader faults a failure is acceptable only if a fault fired, success must equal the model. Non-trivial = at least one file was bound or a limit/missing-file rejection was expected; distinct = distinct event-order hashes.",
     real: &["async_graphql::http::receive_batch_body -> receive_batch_multipart", "ReaderStream (2 KiB buffer) + multer with size constraints", "Request::set_upload", "Upload input type + executor"],
     stub: &["request body (simulated AsyncRead)", "async runtime"],
@@ -903,8 +903,8 @@ pub static C12: CheckDef = CheckDef {
     id: "C12",
     variants: &["http-body", "multipart-hostile", "websocket-hostile", "forged-upload-markers"],
     run: run_c12,
-    quick_runs: 15_000,
-    thorough_runs: 600_000,
+    quick_runs: 300_000,
+    thorough_runs: 20_000_000,
     rule: "transport-facing surfaces only. http-body: valid JSON / batch / multipart bodies mutated at byte level (flips, cuts, duplications, inserted brackets up to depth 200, huge numbers, invalid \\u escapes) and delivered through the simulated reader with chunking, Pending gaps, truncation and I/O errors (ConnectionReset, Interrupted, Other, UnexpectedEof), followed by execution of whatever was decoded. multipart-hostile: broken boundaries, headers without names, map entries of the wrong kind, files without file names. websocket-hostile: mutated and random message sequences into the real WebSocket under both protocols. forged-upload-markers: variables that forge the internal upload marker with and without uploaded files. Oracle: no panic (caught per run and attributed by source location), no stall or step-cap once the input has ended, and every malformed input is answered with an error value. Non-trivial = a fault fired or the input was mutated; distinct = distinct event-order hashes.",
     real: &["receive_body / receive_batch_body / receive_json over the simulated reader", "multer", "WebSocket::poll_next", "Upload::parse / Upload::value", "executor on the decoded request"],
     stub: &["request body, client inbox (simulated)", "async runtime"],
